@@ -74,7 +74,7 @@ class C06(Sim):
             "non-trivial = >= 2 meshes alive and >= 2 transform/edit calls")
     FAULT_KINDS = ["aliasing_schedule", "reject"]
     PROBES = ["merge_same_twice", "merge_result_edited", "copy_edited", "source_edited_after_copy", "open_ring", "boundary_producer",
-              "subdivision_producer", "int_coordinates", "inverse_pair", "flatten", "normalize", "load_producer", "inplace_edit", "copy_connectivity", "elem_edit", "cloud_in_merge", "copy_of_warm_source", "attribute_attached", "attr_edit", "class_wider_than_content", "orig_is_a_vertex", "hex_cells", "vector_attribute_edit"]
+              "subdivision_producer", "int_coordinates", "inverse_pair", "flatten", "normalize", "load_producer", "inplace_edit", "copy_connectivity", "elem_edit", "cloud_in_merge", "copy_of_warm_source", "attribute_attached", "attr_edit", "class_wider_than_content", "orig_is_a_vertex", "hex_cells", "vector_attribute_edit", "corner_attribute_copied"]
     QUICK_RUNS = 3000
     THOROUGH_RUNS = 300000
     BLOCK = 25
@@ -333,6 +333,12 @@ class C06(Sim):
                 for i_ in range(0, len(m_.vertices), 2):
                     a_[i_] = (0.5 + i_) if ar_ == 1 else [0.5 + i_, 1.0, -2.0 * i_][:ar_]
                 self.probes["attribute_attached"] += 1
+                # ... and one on a CORNER container (texture coordinates live there)
+                fc_ = getattr(m_, "face_corners", None)
+                if fc_ is not None and len(fc_) and not fc_.has_attribute("wc"):
+                    ac_ = fc_.create_attribute("wc", float, 2)
+                    for i_ in range(0, len(fc_), 3):
+                        ac_[i_] = [0.25 * i_, 1.0]
             o.value = (o.value, clean)
         return o
 
@@ -341,6 +347,8 @@ class C06(Sim):
         return sorted(n for n, rf in self.ref.items() if rf.owner == c)
 
     def _vec(self, r, lo=-5.0, hi=5.0):
+        if r.chance(0.08):
+            return [r.choice([1e-9, -3e-9, 5e-10, 0.0]) for _ in range(3)]  # a tiny displacement is a displacement all the same
         return [round(r.uniform(lo, hi), 3) for _ in range(3)]
 
     def propose(self, rng):
@@ -539,6 +547,13 @@ class C06(Sim):
                         if a1 is a2 or d1 is d2 or (isinstance(d1, np.ndarray) and isinstance(d2, np.ndarray) and np.shares_memory(d1, d2)):
                             self.violation("copy-shares-no-mutable-state", "copy", "state_corrupted", "shared:attribute-storage", "flags=%r" % (ev["flags"],),
                                            "the copy's vertex attribute shares its storage with the source's")
+                if ev["flags"][0] and hasattr(src_mesh, "face_corners") and src_mesh.face_corners.has_attribute("wc"):
+                    self.probes["corner_attribute_copied"] += 1
+                    ok_ = hasattr(mesh, "face_corners") and mesh.face_corners.has_attribute("wc")
+                    rd_ = lambda mm: [[float(x) for x in mm.face_corners.get_attribute("wc")[i_]] for i_ in range(len(mm.face_corners))]
+                    if not ok_ or rd_(mesh) != rd_(src_mesh):
+                        self.violation("copy-equals-source", "copy", "wrong_value", "corner-attributes", s.producer,
+                                       "copy(%s, copy_attributes=True): the attribute 'wc' of the face corners %s" % (ev["src"], "is missing" if not ok_ else "reads other values"))
                 # "a copy equals its source": the corner records too (element and owner of every face-vertex, cell-vertex, cell-face incidence)
                 for cn in ("face_corners", "cell_corners", "cell_faces"):
                     if hasattr(mesh, cn) and hasattr(src_mesh, cn):
